@@ -23,7 +23,7 @@ open LexVerif.Model.WriteInt (Res)
 
 /-- which `buffer_size_const` the code under test has: `false` = the formula of the current /repo HEAD, `true` = after
 `fixes/C09-buffer-size-const.diff`.  Flip together with committing the fix in /repo. -/
-def repoHasFixedBufferSize : Bool := false
+def repoHasFixedBufferSize : Bool := true
 
 /-- `buffer_size_const` of the code under test -/
 def boundOf (feats : Features) (f : Fmt) (fmt : Format) (o : WOpts) : Nat :=
